@@ -1,21 +1,34 @@
 package main
 
 import (
+	"bytes"
 	"context"
 	"encoding/json"
 	"fmt"
 	"os"
+	"os/exec"
 	"reflect"
+	"runtime"
+	"sync"
+
+	"flamingo.me/pugtemplate/pugjs"
 )
 
 // C07: rendering is a pure, deterministic function of template and data.
 //
-// One case = template files + the template to render + data + a prefix of other renders.
-// Mode "full": the case is rendered twice on one engine, once on a second engine and once
-// on a third engine after the prefix renders; afterwards the caller's data is deep-compared
-// (reflect.DeepEqual) with a pristine copy built independently from the same description.
-// Mode "single": one render on a fresh engine (the Python driver starts several fresh
-// processes in this mode, each with its own map hash seeds).
+// One case = template files + the template to render + data + a history of other renders.
+// Every case runs in processes of its own (runner C07 re-executes this binary as C07one), so
+// that whatever a render may leave behind - in an engine, in package-level variables, in pools
+// or caches - can only come from the case's own history and a replay of the case is
+// self-contained.
+// Mode "full" (one process): r0 = the first render of the process' life, r1 = again on the
+// same engine, r2 = on a second engine instance, then the history (other templates, or the same
+// template with other data, each on any of three engine instances), r3 = on the third engine,
+// r4 = with freshly built equal data on the first engine, r5 = on an engine created only now;
+// afterwards the caller's data is deep-compared (reflect.DeepEqual) with a pristine copy built
+// independently from the same description.
+// Mode "single": exactly one render in a process of its own (own map hash seeds, nothing
+// rendered before); the parent starts `fresh` of them per case.
 
 // data built from Go slices / maps / pointers / structs
 type c07Rec struct {
@@ -181,6 +194,7 @@ func buildData07(raw json.RawMessage) (interface{}, error) {
 type c07Req struct {
 	Render string          `json:"render"`
 	Data   json.RawMessage `json:"data"`
+	On     int             `json:"on"` // which of the process's engine instances runs this history render
 }
 
 type c07Case struct {
@@ -189,16 +203,21 @@ type c07Case struct {
 	Data   json.RawMessage   `json:"data"`
 	Prefix []c07Req          `json:"prefix"`
 	Single bool              `json:"single"`
+	Fresh  int               `json:"fresh"` // parent only: number of additional processes that render the pair exactly once
 }
 
 type c07Obs struct {
 	Load            string         `json:"load"`
 	R               []renderResult `json:"r"`
 	Untouched       bool           `json:"untouched"`        // caller's data deep-equals the pristine copy after all renders
-	PrefixUntouched bool           `json:"prefix_untouched"` // same for the data of the prefix renders
+	PrefixUntouched bool           `json:"prefix_untouched"` // same for the data of the history renders
+	Fresh           []renderResult `json:"fresh"`            // parent only: the single render of each additional process
+	FreshUntouched  bool           `json:"fresh_untouched"`
 	Msg             string         `json:"msg,omitempty"`
 }
 
+// runC07 runs ONE case in this process.  The process has rendered nothing before:
+// r[0] is the first render of the process' life.
 func runC07(c c07Case) (obs c07Obs, err error) {
 	dir, err := os.MkdirTemp("", "pv07")
 	if err != nil {
@@ -231,56 +250,152 @@ func runC07(c c07Case) (obs c07Obs, err error) {
 	if obs.Load != clsOK {
 		return obs, nil
 	}
-	obs.R = append(obs.R, safeRender(e1, ctx, name, data))
+	obs.R = append(obs.R, safeRender(e1, ctx, name, data)) // r0: first render of the process
 	obs.Untouched = reflect.DeepEqual(data, pristine)
 	obs.PrefixUntouched = true
+	obs.FreshUntouched = true
 	if c.Single {
 		return obs, nil
 	}
-	obs.R = append(obs.R, safeRender(e1, ctx, name, data))
+	obs.R = append(obs.R, safeRender(e1, ctx, name, data)) // r1: again, same engine, same data value
 
-	e2 := newEngine(dir, false, 0, nil)
-	if cls, _ := safeLoad(e2, ""); cls != clsOK {
-		return obs, fmt.Errorf("second engine does not load what the first loaded")
+	engines := []*pugjs.Engine{e1}
+	for i := 2; i <= 3; i++ {
+		e := newEngine(dir, false, 0, nil)
+		if cls, _ := safeLoad(e, ""); cls != clsOK {
+			return obs, fmt.Errorf("engine %d does not load what the first loaded", i)
+		}
+		engines = append(engines, e)
 	}
-	obs.R = append(obs.R, safeRender(e2, ctx, name, data))
+	obs.R = append(obs.R, safeRender(engines[1], ctx, name, data)) // r2: second engine instance
 
-	e3 := newEngine(dir, false, 0, nil)
-	if cls, _ := safeLoad(e3, ""); cls != clsOK {
-		return obs, fmt.Errorf("third engine does not load what the first loaded")
-	}
+	// the history: other templates / the same template with other data, on any engine of the process
 	for _, rq := range c.Prefix {
 		d, err := buildData07(rq.Data)
 		if err != nil {
 			return obs, err
 		}
 		p, _ := buildData07(rq.Data)
-		safeRender(e3, ctx, unhx(rq.Render), d)
+		on := rq.On % len(engines)
+		if on < 0 {
+			on = 0
+		}
+		safeRender(engines[on], ctx, unhx(rq.Render), d)
 		if !reflect.DeepEqual(d, p) {
 			obs.PrefixUntouched = false
 		}
 	}
-	obs.R = append(obs.R, safeRender(e3, ctx, name, data))
-	// a render with freshly built equal data, after everything else on engine 1
+	obs.R = append(obs.R, safeRender(engines[2], ctx, name, data)) // r3: third engine, after the history
+	// r4: freshly built equal data, on the first engine, after the history
 	fresh, _ := buildData07(c.Data)
 	obs.R = append(obs.R, safeRender(e1, ctx, name, fresh))
+	// r5: an engine instance created only now
+	e4 := newEngine(dir, false, 0, nil)
+	if cls, _ := safeLoad(e4, ""); cls != clsOK {
+		return obs, fmt.Errorf("late engine does not load what the first loaded")
+	}
+	obs.R = append(obs.R, safeRender(e4, ctx, name, data))
 	obs.Untouched = reflect.DeepEqual(data, pristine) && reflect.DeepEqual(fresh, pristine)
 	return obs, nil
 }
 
+// child runs one case in a process of its own (this binary, runner C07one).
+func c07Child(self string, c c07Case) (obs c07Obs, err error) {
+	in, err := json.Marshal(c)
+	if err != nil {
+		return obs, err
+	}
+	cmd := exec.Command(self, "C07one")
+	cmd.Stdin = bytes.NewReader(in)
+	var stderr bytes.Buffer
+	cmd.Stderr = &stderr
+	out, err := cmd.Output()
+	if err != nil {
+		msg := stderr.String()
+		if len(msg) > 2000 {
+			msg = msg[:2000]
+		}
+		return obs, fmt.Errorf("child process: %v: %s", err, msg)
+	}
+	err = json.Unmarshal(out, &obs)
+	return obs, err
+}
+
+// c07Isolated: one process for the full sequence of the case and c.Fresh more processes that render the
+// pair exactly once - no state of any kind is shared between two cases or between these processes.
+func c07Isolated(self string, c c07Case) (c07Obs, error) {
+	n := c.Fresh
+	c.Fresh = 0
+	if c.Single {
+		return c07Child(self, c)
+	}
+	obs, err := c07Child(self, c)
+	if err != nil || obs.Load != clsOK {
+		return obs, err
+	}
+	obs.Fresh = []renderResult{}
+	c.Single = true
+	c.Prefix = nil
+	for i := 0; i < n; i++ {
+		o, err := c07Child(self, c)
+		if err != nil {
+			return obs, err
+		}
+		if o.Load != clsOK || len(o.R) != 1 {
+			return obs, fmt.Errorf("a fresh process does not load what the first loaded")
+		}
+		obs.Fresh = append(obs.Fresh, o.R[0])
+		obs.FreshUntouched = obs.FreshUntouched && o.Untouched
+	}
+	return obs, nil
+}
+
 func init() {
+	runners["C07one"] = func(in json.RawMessage) (interface{}, error) {
+		var c c07Case
+		if err := json.Unmarshal(in, &c); err != nil {
+			return nil, err
+		}
+		return runC07(c)
+	}
 	runners["C07"] = func(in json.RawMessage) (interface{}, error) {
 		var cases []c07Case
 		if err := json.Unmarshal(in, &cases); err != nil {
 			return nil, err
 		}
+		self, err := os.Executable()
+		if err != nil {
+			return nil, err
+		}
 		out := make([]c07Obs, len(cases))
-		for i, c := range cases {
-			o, err := runC07(c)
+		errs := make([]error, len(cases))
+		workers := runtime.NumCPU()
+		if workers > 8 {
+			workers = 8
+		}
+		if workers < 1 {
+			workers = 1
+		}
+		jobs := make(chan int)
+		var wg sync.WaitGroup
+		for w := 0; w < workers; w++ {
+			wg.Add(1)
+			go func() {
+				defer wg.Done()
+				for i := range jobs {
+					out[i], errs[i] = c07Isolated(self, cases[i])
+				}
+			}()
+		}
+		for i := range cases {
+			jobs <- i
+		}
+		close(jobs)
+		wg.Wait()
+		for i, err := range errs {
 			if err != nil {
 				return nil, fmt.Errorf("case %d: %w", i, err)
 			}
-			out[i] = o
 		}
 		return out, nil
 	}
